@@ -7,12 +7,12 @@
     * a trailing comma (followed by a gap) before the `]` of a non-empty array / the `}` of a
       non-empty object;
     * single-quoted strings and member names;
+    * raw control characters (U+0001 .. U+001F) inside strings and member names;
     * literals `null` / `true` / `false` with any letters in upper case.
 
   `XDoc.text` renders it, `XDoc.erase` is the RFC 8259 document it stands for (the "original
   document" of the property), `XDoc.plain` says that no extension occurs.  The remaining forms of
-  the property (raw control characters in strings, superfluous leading zeros, exponents without
-  digits, trailing bytes after the value) change or end a single token and are covered by the
+  the property (superfluous leading zeros, exponents without digits, trailing bytes after the value) change or end a single token and are covered by the
   per-token theorems of Props/C16.lean.
 -/
 import JsonC.Spec.Rfc8259
@@ -78,6 +78,14 @@ def qText (q : Quote) (items : List StrItem) : Bytes := q.byte :: (items.flatMap
 def itemsOkFor (q : Quote) (items : List StrItem) : Bool :=
   items.all (fun i => i.ok && i != .raw 39) || (q == .dq && items.all StrItem.ok)
 
+/-- an item of a string with extensions: an RFC 8259 item, or a raw control character (U+0001..U+001F) -/
+def itemOkX : StrItem → Bool
+  | .raw b => (StrItem.raw b).ok || (b != 0 && b < 0x20)
+  | i => i.ok
+/-- items admissible between quotes `q` when extensions are allowed -/
+def itemsOkX (q : Quote) (items : List StrItem) : Bool :=
+  items.all (fun i => itemOkX i && (q == .dq || i != .raw 39))
+
 inductive XDoc where
   | lit (k : LitKind) (caps : List Bool)
   | num (n : Num)
@@ -135,7 +143,7 @@ mutual
   def XDoc.ok : XDoc → Bool
     | .lit k caps => caps.length == k.word.length
     | .num n => n.ok
-    | .str q items => itemsOkFor q items
+    | .str q items => itemsOkX q items
     | .arr g es tr => g.ok && xelemsOk es && (match tr with | none => true | some t => t.ok && !es.isEmpty)
     | .obj g ms tr => g.ok && xmembersOk ms && (match tr with | none => true | some t => t.ok && !ms.isEmpty)
   def xelemsOk : List (Gap × XDoc × Gap) → Bool
@@ -144,7 +152,7 @@ mutual
   def xmembersOk : List (Gap × Quote × List StrItem × Gap × Gap × XDoc × Gap) → Bool
     | [] => true
     | (g1, q, k, g2, g3, d, g4) :: r =>
-      g1.ok && itemsOkFor q k && g2.ok && g3.ok && XDoc.ok d && g4.ok && xmembersOk r
+      g1.ok && itemsOkX q k && g2.ok && g3.ok && XDoc.ok d && g4.ok && xmembersOk r
 end
 
 mutual
@@ -152,7 +160,7 @@ mutual
   def XDoc.plain : XDoc → Bool
     | .lit _ caps => caps.all (· == false)
     | .num _ => true
-    | .str q _ => q == .dq
+    | .str q items => q == .dq && items.all StrItem.ok
     | .arr g [] tr => g.plain && tr.isNone
     | .arr _ es tr => xelemsPlain es && tr.isNone          -- (the gap of the empty form is not rendered)
     | .obj g [] tr => g.plain && tr.isNone
@@ -162,8 +170,8 @@ mutual
     | (g1, d, g2) :: r => g1.plain && XDoc.plain d && g2.plain && xelemsPlain r
   def xmembersPlain : List (Gap × Quote × List StrItem × Gap × Gap × XDoc × Gap) → Bool
     | [] => true
-    | (g1, q, _, g2, g3, d, g4) :: r =>
-      g1.plain && q == .dq && g2.plain && g3.plain && XDoc.plain d && g4.plain && xmembersPlain r
+    | (g1, q, k, g2, g3, d, g4) :: r =>
+      g1.plain && (q == .dq && k.all StrItem.ok) && g2.plain && g3.plain && XDoc.plain d && g4.plain && xmembersPlain r
 end
 
 /-- a whole text: gap value gap -/
